@@ -1,18 +1,40 @@
 (** * Flags3: the log only grows.  [run] never removes or rewrites a logged event: the log of
     the result has the log of the start state as a suffix, for every call, from every state
-    (no precondition), whatever the outcome.  Same method as Flags2, with the log predicate
-    "has [l0] as a suffix". *)
+    (no precondition), whatever the outcome, and the new events never contain [ERes RPanicked].
+    Same method as Flags2, generic in the log predicate; a second instance shows that
+    [st_exec] only changes in [step_collect]. *)
 From Coq Require Import NArith Bool List Lia.
 From stdpp Require Import base list option.
 From RecordUpdate Require Import RecordSet.
 From RC Require Import Hdr Machine RunInd Flags Flags2.
 Import ListNotations RecordSetNotations.
 
-Definition monoA (l0 : list event) : lpred :=
-  LPred (fun _ => True) (fun _ => suffix l0) (fun e _ l _ H => suffix_cons_r l0 l e H) (fun _ _ => I).
+(** new events on top of [l0], none of them [ERes RPanicked] (which only [exec_top] logs) *)
+Definition ext_of (l0 l : list event) : Prop :=
+  exists k, l = k ++ l0 /\ Forall (fun e => e <> ERes RPanicked) k.
+
+Lemma ext_of_refl l : ext_of l l.
+Proof. exists []. split; [reflexivity | constructor]. Qed.
+Lemma ext_of_cons l0 l e : e <> ERes RPanicked -> ext_of l0 l -> ext_of l0 (e :: l).
+Proof. intros He (k & -> & Hk). exists (e :: k). split; [reflexivity | constructor; assumption]. Qed.
+Lemma ext_of_trans l0 l1 l2 : ext_of l0 l1 -> ext_of l1 l2 -> ext_of l0 l2.
+Proof.
+  intros (k1 & -> & H1) (k2 & -> & H2). exists (k2 ++ k1).
+  split; [apply app_assoc | apply Forall_app; split; assumption].
+Qed.
+Lemma benign_not_panicked e : benign e -> e <> ERes RPanicked.
+Proof. intros H ->. exact H. Qed.
+
+Definition extA (l0 : list event) : lpred :=
+  LPred (fun e => e <> ERes RPanicked) (fun _ => ext_of l0)
+        (fun e _ l He H => ext_of_cons l0 l e He H) benign_not_panicked.
+
+(** [st_exec] stays [e0] *)
+Definition execA (e0 : N) : lpred :=
+  LPred (fun _ => True) (fun n _ => n = e0) (fun _ _ _ _ H => H) (fun _ _ => I).
 
 Definition MPre (c : call) (m : machine) : Prop := True.
-Definition MPost (c : call) (m m' : machine) (r : outcome) : Prop := suffix (log m) (log m').
+Definition MPost (c : call) (m m' : machine) (r : outcome) : Prop := ext_of (log m) (log m').
 
 (** the log predicate holds of the machine of a result *)
 Definition lres (A : lpred) (x : machine * outcome) : Prop := lp_log A (st_exec x.1) (log x.1).
@@ -45,26 +67,20 @@ Ltac lres_pair x :=
 Ltac madv1 := adv_gen lres_pair.
 Ltac mgo := cbv beta iota zeta; cbn [andb negb]; repeat madv1; fl.
 
+Lemma call_is_collect (k : call) : {k = KCollect} + {k <> KCollect}.
+Proof. destruct k; try (right; discriminate). left; reflexivity. Qed.
+
 Section Mono.
-  Context (K : conf) (P : prog) (l0 : list event).
+  Context (K : conf) (P : prog) (A : lpred).
+  Context (HevA : forall e, e <> ERes RPanicked -> lp_ev A e).
   Context (rec : call -> machine -> machine * outcome).
-  Context (Hrec : rec_ok MPre MPost rec).
-  Notation A := (monoA l0).
+  Context (mrec : forall k t m, inv A t m -> lres A (rec k m)).
 
-  Lemma mrec k t m : inv A t m -> lres A (rec k m).
-  Proof.
-    intros [_ H]. pose proof (Hrec k m I) as HH. unfold MPost in HH.
-    unfold lres. cbn in *. etransitivity; eassumption.
-  Qed.
-
-  Lemma inv_set_exec_mono t g m : inv A t m -> inv A t (m <| st_exec ::= g |>).
-  Proof. intros [H1 H2]. split; [exact H1 | exact H2]. Qed.
-  Local Hint Extern 1 (inv _ _ (set st_exec _ _)) => (apply inv_set_exec_mono) : fl.
   Local Hint Extern 2 (lres _ (rec _ _)) => (eapply mrec) : fl.
-  (** every event is acceptable for this predicate *)
-  Local Hint Extern 1 (inv _ _ (emit _ _)) => (apply (inv_emit A); [exact I|]) : fl.
+  (** every event logged below the top level is acceptable for these predicates *)
+  Local Hint Extern 1 (inv _ _ (emit _ _)) => (apply (inv_emit A); [apply HevA; discriminate|]) : fl.
   Local Hint Extern 2 (inv _ _ (fst (trace_pass _ _ _))) =>
-    (eapply (inv_trace_pass K P A); [intros; exact I | ]) : fl.
+    (eapply (inv_trace_pass K P A); [intros; apply HevA; discriminate | ]) : fl.
 
   Definition mono_ok (X : machine -> machine * outcome) : Prop :=
     forall c f d p m, inv A (c, f, d, p) m -> lres A (X m).
@@ -89,8 +105,6 @@ Section Mono.
   Proof. intros c f d p m H. unfold step_trigger. mgo. Qed.
   Lemma g_step_collect_cycles  : mono_ok (step_collect_cycles K rec).
   Proof. intros c f d p m H. unfold step_collect_cycles. mgo. Qed.
-  Lemma g_step_collect  : mono_ok (step_collect K rec).
-  Proof. intros c f d p m H. unfold step_collect. mgo. Qed.
   Lemma g_step_collect_loop k : mono_ok (step_collect_loop rec k).
   Proof. intros c f d p m H. unfold step_collect_loop. mgo. Qed.
   Lemma g_step_collect_once  : mono_ok (step_collect_once K P rec).
@@ -202,9 +216,10 @@ Section Mono.
       | apply g_cmd_s_obs ].
   Qed.
 
-  Lemma g_step k : mono_ok (step K P rec k).
+  (** every activation kind except [collect] itself (which counts one more execution) *)
+  Lemma g_step_nc k : k <> KCollect -> mono_ok (step K P rec k).
   Proof.
-    intros c f d p m. destruct k; cbn [step];
+    intros Hk c f d p m. destruct k; cbn [step];
       [ apply g_step_cmd
       | apply g_step_script
       | apply g_step_store
@@ -214,7 +229,7 @@ Section Mono.
       | apply g_step_drop_map_slots
       | apply g_step_trigger
       | apply g_step_collect_cycles
-      | apply g_step_collect
+      | contradiction
       | apply g_step_collect_loop
       | apply g_step_collect_once
       | apply g_step_finalize_list
@@ -222,13 +237,54 @@ Section Mono.
       | apply g_step_unbag
       | apply g_step_clean_run ].
   Qed.
+
+  (** [collect], for predicates that do not look at [st_exec] *)
+  Context (Hexec : forall t g m, inv A t m -> inv A t (m <| st_exec ::= g |>)).
+  Local Hint Extern 1 (inv _ _ (set st_exec _ _)) => (apply Hexec) : fl.
+  Lemma g_step_collect : mono_ok (step_collect K rec).
+  Proof. intros c f d p m H. unfold step_collect. mgo. Qed.
+
+  Lemma g_step k : mono_ok (step K P rec k).
+  Proof.
+    destruct (call_is_collect k) as [->|Hk]; [exact g_step_collect | exact (g_step_nc k Hk)].
+  Qed.
 End Mono.
 
-(** ** The log of the result of any activation extends the log of its start state. *)
-Theorem run_log_mono K P n c m : suffix (log m) (log (run K P n c m).1).
+(** ** Every activation only adds events to the log, and never [ERes RPanicked]: that event is
+    logged by [exec_top] alone. *)
+Theorem run_log_ext K P n c m : ext_of (log m) (log (run K P n c m).1).
 Proof.
   apply (run_ind K P MPre MPost); [| |exact I].
   - intros rec Hrec k m0 _. unfold MPost.
-    apply (g_step K P (log m0) rec Hrec k _ _ _ _ m0 (inv_self _ m0 (reflexivity _))).
-  - intros k m0 _. unfold MPost. reflexivity.
+    refine (g_step K P (extA (log m0)) (fun e He => He) rec _ _ k _ _ _ _ m0
+              (inv_self (extA (log m0)) m0 (ext_of_refl _))).
+    + intros k' t m1 [_ H1]. pose proof (Hrec k' m1 I) as H2. unfold MPost in H2.
+      unfold lres. cbn in *. eapply ext_of_trans; eassumption.
+    + intros t g m1 [H1 H2]. split; [exact H1 | exact H2].
+  - intros k m0 _. unfold MPost. apply ext_of_refl.
+Qed.
+
+Corollary run_log_mono K P n c m : suffix (log m) (log (run K P n c m).1).
+Proof. destruct (run_log_ext K P n c m) as (k & -> & _). exists k. reflexivity. Qed.
+
+(** ** [executions] only advance in [collect]: an activation of any other kind changes
+    [st_exec] only through its recursive sub-activations. *)
+Theorem exec_only_in_collect K P rec k m :
+  (forall k' m', st_exec (rec k' m').1 = st_exec m') ->
+  k <> KCollect -> st_exec (step K P rec k m).1 = st_exec m.
+Proof.
+  intros Hrec Hk.
+  refine (g_step_nc K P (execA (st_exec m)) (fun _ _ => I) rec _ k Hk _ _ _ _ m
+            (inv_self (execA (st_exec m)) m eq_refl)).
+  intros k' t m1 [_ H1]. unfold lres. cbn in *. rewrite Hrec. exact H1.
+Qed.
+
+Theorem exec_in_collect K rec m :
+  (forall k' m', st_exec (rec k' m').1 = st_exec m') ->
+  st_exec (step_collect K rec m).1 = N.succ (st_exec m).
+Proof.
+  intros Hrec. unfold step_collect.
+  match goal with |- context [rec ?k ?m0] =>
+    pose proof (Hrec k m0) as H; destruct (rec k m0) as [m1 r1] end.
+  cbn in *. exact H.
 Qed.
